@@ -422,7 +422,7 @@ func (p *Policer) headECPart(ctx context.Context, timeout time.Duration, node ne
 }
 
 func (p *Policer) recreateECParts(ctx context.Context, parent object.Object, rule iec.Rule, ruleIdx int, parts [][]byte, missingIdx []int) {
-	sortedNodeLists, _, ecRules, err := p.network.GetNodesForObject(oid.NewAddress(parent.GetContainerID(), parent.GetID()))
+	sortedNodeLists, repRules, ecRules, err := p.network.GetNodesForObject(oid.NewAddress(parent.GetContainerID(), parent.GetID()))
 	if err != nil {
 		p.log.Error("failed to select nodes for EC parent to recreate its parts",
 			zap.Stringer("container", parent.GetContainerID()), zap.Stringer("parent", parent.GetID()),
@@ -437,7 +437,8 @@ func (p *Policer) recreateECParts(ctx context.Context, parent object.Object, rul
 		return
 	}
 
-	p.recreateECPartsIdx(ctx, parent, rule, ruleIdx, sortedNodeLists[ruleIdx], parts, missingIdx)
+	// first len(repRules) lists relate to replication, the EC ones follow
+	p.recreateECPartsIdx(ctx, parent, rule, ruleIdx, sortedNodeLists[len(repRules)+ruleIdx], parts, missingIdx)
 }
 
 func (p *Policer) recreateECPartsIdx(ctx context.Context, parent object.Object, rule iec.Rule, ruleIdx int, sortedNodes []netmap.NodeInfo,
